@@ -511,3 +511,63 @@ func (x *Var) Add(d int) int {
 }
 func (x *Var) Load() int { return x.v }
 func (x *Var) Max() int  { return x.max }
+
+// Pool replaces sync.Pool. Inside an execution it is a LIFO free list that belongs to that
+// execution (emptied when a later execution first touches it, so that nothing a cut or torn-down
+// execution left behind leaks into the next one); Get and Put are scheduling points. Get reuses
+// the most recently returned object whenever there is one — the runtime may drop pooled objects
+// at any time, maximal reuse is the behaviour that exposes state left in recycled objects.
+// Outside an execution: the real pool.
+type Pool struct {
+	New func() any
+
+	real  sync.Pool
+	items []any
+	h     uint64
+	ep    uint64
+}
+
+func (p *Pool) fresh(e *Exec) {
+	if p.ep != e.id {
+		p.ep, p.items, p.h = e.id, nil, 0
+	}
+}
+
+func (p *Pool) Get() any {
+	e, t := managed()
+	if t == nil {
+		if v := p.real.Get(); v != nil {
+			return v
+		}
+		if p.New != nil {
+			return p.New()
+		}
+		return nil
+	}
+	p.fresh(e)
+	var v any
+	got := false
+	e.simple(t, "pool.get", func() {
+		if n := len(p.items); n > 0 {
+			v, got = p.items[n-1], true
+			p.items = p.items[:n-1]
+		}
+	}, &p.h)
+	if !got && p.New != nil {
+		return p.New()
+	}
+	return v
+}
+
+func (p *Pool) Put(x any) {
+	e, t := managed()
+	if t == nil {
+		p.real.Put(x)
+		return
+	}
+	if x == nil {
+		return
+	}
+	p.fresh(e)
+	e.simple(t, "pool.put", func() { p.items = append(p.items, x) }, &p.h)
+}
